@@ -129,7 +129,10 @@ claim("C06", "other",
       "the masks after the call are the published accept/reject step applied `result` times (ghost mask sequences with one-step axioms, "
       "extensional array equality), `result` is the first iteration at which the published stopping rule holds (zero guards first, then both "
       "relative-difference tests) or max_iterations, no window is re-accepted, at most max_iterations iterations, only the two masks are "
-      "written. Structural obligations on the same function are kept. Bounded / cross-check (labelled): the whole entry point including peak "
+      "written. The entry point frequency_domain_window_rejection on an azimuthal object with any number of azimuths: every azimuth gets the "
+      "peak search in the requested range first and the iteration second, with the caller's n, max_iterations and distributions (object state "
+      "as one abstract content per object in a ghost map), and the largest iteration count is returned (running-maximum invariant). "
+      "Structural obligations on the driver are kept. Bounded / cross-check (labelled): the whole entry point including peak "
       "search set-up equals an independent re-implementation of Cox et al. (2020) for all four distribution pairs, n in {0.5..2.5}, "
       "max_iterations in {1,2,3,50}, two kinds of search range, crafted exact-zero cases; window-order and amplitude-scale invariance; the "
       "azimuthal maximum. That the accessors return the textbook statistics is C05's obligation, not repeated here.",
